@@ -164,6 +164,15 @@ CHECKS = {
         note="The by-name equivariance of the solution relies on C12 (partial). Non-gas-phase tolerance lookup: see C20.",
         technique="Coq proof (permutation invariants) + by-name oracle on the assembled solvers",
         ref="6 C14"),
+    "C15": dict(
+        text="Coq (any arithmetic, any formulas as oracles): for both layouts and every cell count, the rate constant stored "
+             "for reaction r of cell c is r's formula at c's conditions and r's own custom-parameter columns (offset = sum "
+             "of the sizes before r) times r's parameterised reactants (C15_rate_constant_association_*). Tie: the real "
+             "builder / State setters / CalculateRateConstants with probe rate constants of 0-3 parameters mixed with "
+             "built-in kinds vs the extracted model, whole storage compared exactly; oracle recomputes every value from the inputs.",
+        note="PARTIAL: that each built-in formula equals its documented expression is not compared (libm); it is an oracle in the theorem.",
+        technique="Coq proof (offset walking, both layouts) + extracted-model differential tie with probe rate constants",
+        ref="6 C15"),
     "C19": dict(
         text="Coq theorems: every logical element of a dense matrix has its own in-range slot in every layout "
              "(injectivity + range for row-major and grouped, any L>0, any shape); the Axpy/ForEach loops visit exactly the "
